@@ -46,7 +46,7 @@ def fresh_interpreters(ctx):
     import subprocess
     import sys
     got = {}
-    for hs in ("1", "2"):
+    for hs in ("1", "3", "4"):
         env = dict(os.environ, PYTHONHASHSEED=hs)
         p = subprocess.run([sys.executable, "-W", "ignore", "-m", "harness.drivers.hashseed_probe"], capture_output=True, text=True, env=env,
                            cwd=os.path.dirname(os.path.dirname(os.path.dirname(os.path.abspath(__file__)))), timeout=900)
@@ -55,8 +55,8 @@ def fresh_interpreters(ctx):
             raise tlc.MachineryError(f"hash-seed probe failed (exit {p.returncode}): {p.stderr[-400:]}")
         got[hs] = json.loads(line[8:])
         ctx.case(key=("fresh_interpreter", hs))
-    diff = [k for k in got["1"] if got["1"][k] != got["2"].get(k)]
-    ctx.log(f"fresh interpreters with string-hash seeds 1 / 2: seeded fit, personalization, two simulations -> {'identical' if not diff else 'DIFFER: ' + str(diff)}")
+    diff = [k for k in got["1"] if any(got["1"][k] != got[h].get(k) for h in got)]
+    ctx.log(f"fresh interpreters with string-hash seeds 1 / 3 / 4: seeded fit, three personalizations, two simulations -> {'identical' if not diff else 'DIFFER: ' + str(diff)}")
     if diff:
         ctx.violation({"check": "hash_seed", "what": diff[0]}, f"seeded {diff} differ between fresh interpreters with different string-hash seeds: {got}",
                       replay=got)
